@@ -240,6 +240,24 @@ func runC19(r *vk.Run) {
 		}
 		f := genStatelessFilter(rng, ds)
 		g := genStatelessFilter(rng, ds)
+		if err == nil && rng.Chance(1, 8) {
+			// neighbouring filters of one polarity whose needles nest (one a piece of the other, the empty one
+			// included): the prefix ends in one of them, f is the other -- each keeps its own meaning
+			long := genNeedle(rng, ds)
+			short := long[:len(long)/2]
+			if rng.Chance(1, 4) {
+				short = ""
+			}
+			a, b := long, short
+			if rng.Bool() {
+				a, b = b, a
+			}
+			op := vk.Pick(rng, []string{"!=", "!=", "|="})
+			qt += " " + op + " " + quoteLogQL(a)
+			base, err = c19Eval(c, ds, n, qt)
+			f = filt{Text: "|= " + quoteLogQL(b), Neg: "!= " + quoteLogQL(b), Kind: "line-contains"}
+			c.Count("nested_needle_neighbours", 1)
+		}
 		if rng.Chance(1, 5) {
 			// the same regular-expression text in both kinds of position: a line filter is unanchored,
 			// a label matcher is anchored, whichever of them the query mentions first
